@@ -6,7 +6,7 @@ PROPS["C06"] = dict(
          "aims the next op at a key whose expiry was just crossed with probability 1/2 and draws its kind uniformly from the nine kinds; the "
          "systematic part plays write x advance x first-touching op x follow-up for every op kind on both backends. An advance never stops "
          "exactly on an expiry instant. The redisexact unit writes through Put/PutMany/Create/CasByVersion with ExpiresAt = t0 + d (t0 read before the call; d from 5 ms to an hour with odd sub-millisecond parts), ages miniredis by exactly d and requires the record to be gone (any correct TTL is at most ExpiresAt minus the time of the call), and to be still there two milliseconds plus the duration of the call earlier. The squeeze unit (in-memory backend, real goroutines ordered through the storage mutex) forces 'A's first critical section, all of B, A's next critical section' for A = Get/GetMany/ListKeys/Create/CasByVersion/Delete meeting an expired record "
-         "and B = Put/Create of a fresh record without expiry, and a Put applied between the expiry of a record and the expiry handling of a waiter parked on it: the fresh record must be there afterwards (unless a Delete that ran after it returned nil). The rediswire unit lets time pass INSIDE one call of the Redis backend: a miniredis whose TTLs are aged by the real clock (catch-up FastForward before every command "
+         "and B = Put/Create of a fresh record without expiry, and a Put applied between the expiry of a record and the expiry handling of a waiter parked on it: the fresh record must be there afterwards (unless a Delete that ran after it returned nil); and it keeps a waiter that registered a moment before the expiry of its record off the processor until the expiry has passed (GOMAXPROCS(1)): it must end with ErrNotExist, like a waiter on a deleted key. The rediswire unit lets time pass INSIDE one call of the Redis backend: a miniredis whose TTLs are aged by the real clock (catch-up FastForward before every command "
          "and observation), the client's connection wrapped so that the k-th command of one put/putmany/create(over a record that lapses or is removed meanwhile)/cas/cas-with-forced-retry call is stalled 200-500 ms "
          "(before forwarding for TTL-free commands, before the reply otherwise; every position enumerated once + drawn pairs); the written records must be readable until 150 ms before their ExpiresAt and gone 150 ms after it "
          "(a failure is confirmed by two re-runs with all durations doubled); the same unit runs 'waitprolong' cases: a WaitForVersionChange polls a record that expires in 60-400 ms, and 1 ms after the first poll that comes less than 8-70 ms before "
